@@ -61,6 +61,7 @@ type Exec struct {
 	roundFacts map[int][]*Term
 	feasChecks int
 	deadline   time.Time
+	ghostUnit  bool
 	widthDone  map[string][]*Term
 	noInvFor   map[*types.Named]bool // types whose invariant is not assumed for parameters (object under construction)
 }
@@ -70,6 +71,12 @@ func newExec(w *World, name string, d *Decl) *Exec {
 }
 
 func (x *Exec) top() *frame { return x.frames[len(x.frames)-1] }
+
+// inSpec: evaluating specification text (clauses, spec functions) or the body of a ghost function itself; real code
+// executed in place from a ghost body (frames below it) gets the full set of safety obligations.
+func (x *Exec) inSpec() bool {
+	return x.specMode > 0 || (x.ghostUnit && len(x.frames) <= 1)
+}
 func (x *Exec) pkg() *Pkg   { return x.top().pkg }
 func (x *Exec) info() *types.Info {
 	return x.top().pkg.Info
@@ -79,7 +86,7 @@ func (x *Exec) pos(n ast.Node) token.Position { return x.w.Fset.Position(n.Pos()
 
 // oblige records a proof obligation hyps(st) |- goal.
 func (x *Exec) oblige(kind string, st *State, goal *Term, at ast.Node, clause string) {
-	if x.specMode > 0 && kind != "assert" && !strings.HasPrefix(kind, "post") && kind != "pre" && kind != "lemma-pre" {
+	if x.inSpec() && kind != "assert" && !strings.HasPrefix(kind, "post") && kind != "pre" && kind != "lemma-pre" {
 		return
 	}
 	if goal.isTrue() || st.dead() {
@@ -572,11 +579,15 @@ func (x *Exec) applyHints(s ast.Stmt, st *State) {
 			continue
 		case "use":
 			rc := &Clause{Kind: "use", FnName: c.FnName + "_req", Text: c.Text}
-			sm := x.specMode
-			x.specMode = 0
-			x.oblige("lemma-pre", st, x.evalClause(pk, rc, bindArgs(rc.FnName), st), s, "requires of lemma instance "+c.Text)
-			x.specMode = sm
-			st.assume(x.evalClause(pk, c, bindArgs(c.FnName), st))
+			if c.Cond {
+				st.assume(mkImplies(x.evalClause(pk, rc, bindArgs(rc.FnName), st), x.evalClause(pk, c, bindArgs(c.FnName), st)))
+			} else {
+				sm := x.specMode
+				x.specMode = 0
+				x.oblige("lemma-pre", st, x.evalClause(pk, rc, bindArgs(rc.FnName), st), s, "requires of lemma instance "+c.Text)
+				x.specMode = sm
+				st.assume(x.evalClause(pk, c, bindArgs(c.FnName), st))
+			}
 			x.usedLemmas[strings.TrimSpace(c.Text[:strings.Index(c.Text, "(")])] = true
 			continue
 		}
@@ -590,6 +601,9 @@ func (x *Exec) applyHints(s ast.Stmt, st *State) {
 			vn := c.SplitVar
 			if k := strings.Index(vn, "#"); k >= 0 {
 				vn = vn[:k]
+			}
+			if strings.Contains(vn, ".") {
+				unsup("cut on a field (%s): use hint", vn)
 			}
 			if obj, ok := sc.Lookup(vn).(*types.Var); ok {
 				st.vars[obj] = x.havoc(vn, st.vars[obj], obj.Type(), st)
@@ -1613,7 +1627,7 @@ func (x *Exec) constValue(tv types.TypeAndValue) Value {
 			i, _ := constant.Int64Val(constant.ToInt(c))
 			return IntV{mkInt(i)}
 		}
-		return FloatV{mkRat(ratOfConst(c, x.specMode > 0))}
+		return FloatV{mkRat(ratOfConst(c, x.inSpec()))}
 	}
 	unsup("constant kind %v", c.Kind())
 	return nil
@@ -1750,7 +1764,7 @@ func (x *Exec) fieldOf(base Value, name string, st *State, at ast.Node) Value {
 }
 
 func (x *Exec) overflowCheck(r *Term, t types.Type, st *State, at ast.Node) {
-	if x.specMode > 0 || r.isConst() {
+	if x.inSpec() || r.isConst() {
 		return
 	}
 	b, ok := t.Underlying().(*types.Basic)
@@ -1951,7 +1965,7 @@ func (x *Exec) valuesEqual(l, r Value, st *State) *Term {
 		case NilV:
 			return a.Nil
 		case *StructV:
-			if x.specMode > 0 {
+			if x.inSpec() {
 				// structural equality of immutable objects (spec only)
 				return x.structEq(a, b, st)
 			}
@@ -2104,6 +2118,20 @@ func (x *Exec) mapLookup(e *ast.IndexExpr, st *State) (Value, *Term) {
 	}
 	if ks.Opaque {
 		unsup("map lookup with unmodelled string key (%s)", ks.Tag)
+	}
+	if ks.Cases != nil {
+		res := zero
+		present := tFalse
+		for _, cs := range ks.Cases {
+			for j := len(m.Keys) - 1; j >= 0; j-- {
+				if c, ok := matchPattern(m.Keys[j], cs.Parts); ok && !c.isFalse() {
+					g := mkAnd(cs.Cond, c)
+					res = mergeValues(g, m.Vals[j], res)
+					present = mkOr(present, g)
+				}
+			}
+		}
+		return res, present
 	}
 	if ks.Fmt != nil {
 		// formatted key (e.g. Sprintf("%d-%d", m, d)): every literal key of the constant map is matched against the pattern
